@@ -1301,7 +1301,11 @@ func (e *c28Env) evalProxy(ctype, comp, shape, hdr string) {
 	for _, p := range paths {
 		for _, body := range bodies {
 			for _, c := range e.compress(comp, body) {
-				for _, m := range []string{"POST", "GET", "PUT", "DELETE", "OPTIONS", "PATCH", "C28VERB"} {
+				methods := []string{"POST", "GET", "PUT", "DELETE", "OPTIONS", "PATCH", "C28VERB"}
+				if shape == "hugelen" {
+					methods = []string{"POST", "GET", "C28VERB"}
+				}
+				for _, m := range methods {
 					if m == "GET" && n > 0 && len(body) > 0 {
 						continue
 					}
